@@ -82,4 +82,17 @@ theorem evalList_projN (env : Env) (m : Mem) (o : Op) (args : List Expr) (blocks
     rw [List.drop_eq_getElem_cons hlt]
     simp [hlt]
 
+theorem execStmts_append (env : Env) (s : MSt) : ∀ (a b : List Stmt),
+    execStmts env s (a ++ b) = (execStmts env s a).bind fun (env', s') => execStmts env' s' b := by
+  intro a
+  induction a generalizing env s with
+  | nil => intro b; simp [execStmts]
+  | cons st a ih =>
+    intro b
+    simp only [List.cons_append, execStmts]
+    cases exec env s st with
+    | none => simp
+    | some r => obtain ⟨e', s'⟩ := r; simp [ih]
+
+
 end Witverif.Abi
